@@ -28,7 +28,7 @@ ASSUMPTIONS = [
     "a user type's declared failures are ValueError and TypeError; anything else it raises is undeclared",
     "inputs that merely take long (alias bombs) are not generated: termination is judged with a 10 s CPU budget per run",
 ]
-PROBES = ["rejected-AE", "rejected-exit2", "exit0-printed", "fault-fired", "injected-propagated", "stdin-closed", "cfg-path-state-fault", "cfg-content-fault", "cyclic-alias", "subclass-bad-import", "env-list-broken-json", "nested-subconfig-fault"]
+PROBES = ["stdout-absent", "rejected-AE", "rejected-exit2", "exit0-printed", "fault-fired", "injected-propagated", "stdin-closed", "cfg-path-state-fault", "cfg-content-fault", "cyclic-alias", "subclass-bad-import", "env-list-broken-json", "nested-subconfig-fault"]
 ANCHOR_FILES = ("_core", "_actions", "_typehints", "_util", "_loaders_dumpers")
 NO_SHRINK = ("parser/opts", "parser/opts/*", "world/dirs", "world/cwd")
 SHRINK_DICTS = ("world/files", "world/env", "world/symlinks", "ops/*/obj", "ops/*/env")
@@ -346,6 +346,8 @@ def generate(rng, tier):
             op["env"] = gen_env(rng, feats, spec_feats)
         else:
             op["path"] = rng.choice(PATH_STATES + ["fault.yaml", "fault2.yaml", "fault.yaml"])
+        if rng.random() < 0.08:
+            op["stdout"] = rng.choice([{"none": True}, {"closed": True}])
         if rng.random() < 0.12 or (m == "path" and op.get("path") == "-") or "-" in op.get("argv", []):
             op["stdin"] = rng.choice([{"closed": True}, {"none": True}, "", "a: 1\n", "[1", "\x00"])
         ops.append(op)
@@ -474,7 +476,7 @@ def execute(sc, ctx):
         p = zoo.build(sc["parser"])
         sim.begin_op(i, kind)
         nf = len(sim.fired)
-        o = run_op(lambda: do_op(p, op), stdin=op.get("stdin"))
+        o = run_op(lambda: do_op(p, op), stdin=op.get("stdin"), stdout=op.get("stdout"))
         os.environ.clear()
         os.environ.update(env0)
         fired = sim.fired[nf:]
@@ -489,6 +491,8 @@ def execute(sc, ctx):
             ctx.nontrivial = True
         if isinstance(op.get("stdin"), dict):
             sim.probe("stdin-closed")
+        if op.get("stdout"):
+            sim.probe("stdout-absent")
         txt = json.dumps(op)
         if any(s in txt for s in ("missing.yaml", "dir.yaml", "fifo.pipe", "dangling.yaml", "thru/x", "noperm.yaml")):
             sim.probe("cfg-path-state-fault")
@@ -504,7 +508,12 @@ def execute(sc, ctx):
         ctx.record(kind, o.brief() + ("!" if fired else ""))
         ok = False
         why = ""
-        if o.kind == "ret":
+        if op.get("stdout") and any(s in txt for s in ("print_config", "help", "-h", "print_shtab", "version")):
+            # something has to be PRINTED and there is no standard output: whatever happens is the environment's
+            # doing - no verdict.  (A plain parse failure needs no stdout and is judged as usual.)
+            ok = True
+            sim.probe("no-stdout-for-printing")
+        elif o.kind == "ret":
             ok = True
         elif o.kind == "AE":
             ok = not eoe or False
